@@ -33,7 +33,7 @@ the tag of a `call` it received before (so a stack never invents or swaps reques
 theorem forwards_received (l : List LIn) (s' : LSt) (hs : LSt.run {} l = some s') :
     ∀ t ∈ callTags (inners l), t ∈ callTags (outers l) := by
   intro t ht
-  have := Stack.forwards_received l {} s' [] ⟨by intro i w h; simp at h, by intro o t h; simp at h⟩ hs t ht
+  have := Stack.forwards_received l {} s' [] ⟨by intro i w h; simp at h, by intro o t h; simp at h, by intro o t h; simp at h⟩ hs t ht
   simpa using this
 
 /-- The pinned idiom (`let mut inner = self.inner.clone(); … inner.call(req)`) cannot be performed
